@@ -10,11 +10,21 @@ pub const WQ: f64 = 100000.0;
 thread_local! {
     /// "forder" scenarios: every matrix handed to the library is stored column-major (same values, other memory layout)
     pub static FORDER: std::cell::Cell<bool> = const { std::cell::Cell::new(false) };
+    /// "negstride" scenarios: the matrices are views with a negative stride along the column axis made owned without re-packing
+    pub static NEGSTRIDE: std::cell::Cell<bool> = const { std::cell::Cell::new(false) };
 }
 
 /// the same matrix in column-major layout when the current script asks for it
 pub fn layout(m: Array2<f64>) -> Array2<f64> {
-    if FORDER.with(|f| f.get()) {
+    if NEGSTRIDE.with(|f| f.get()) {
+        // store the columns mirrored, then flip the column axis: same logical matrix, negative column stride
+        let mut r = m.clone();
+        r.invert_axis(ndarray::Axis(1));
+        let mut packed = Array2::<f64>::zeros(r.raw_dim());
+        packed.assign(&r);
+        packed.invert_axis(ndarray::Axis(1));
+        packed
+    } else if FORDER.with(|f| f.get()) {
         use ndarray::ShapeBuilder;
         let mut f = Array2::<f64>::zeros(m.raw_dim().f());
         f.assign(&m);
